@@ -292,15 +292,20 @@ def finderArgs (a : Adapter) : Option (Bytes × Bool × Bool × Bool) :=
 def positionsFor (a : Adapter) : Option (Except KmerErr (List Entry)) :=
   (finderArgs a).map fun (s, b, f, i) => createPositionsAndKmers s a.minOverlap a.thr b f i
 
-/-- `self.kmer_finder` -/
-def finderFor (a : Adapter) : Finder :=
-  match positionsFor a with
-  | none => .mock
-  | some (.error _) => .mock   -- not reachable: `create_positions_and_kmers` never produces a middle search
-  | some (.ok entries) =>
+/-- `_make_kmer_finder(sequence, back_adapter, front_adapter, internal)` -/
+def makeKmerFinder (a : Adapter) (s : Bytes) (b f i : Bool) : Finder :=
+  match createPositionsAndKmers s a.minOverlap a.thr b f i with
+  | .error _ => .mock   -- not reachable: `create_positions_and_kmers` never produces a middle search
+  | .ok entries =>
     match mkFinder entries with
     | none => .mock            -- `except ValueError: return MockKmerFinder()`
     | some ms => .masks a.adapterWildcards a.readWildcards ms
+
+/-- `self.kmer_finder` -/
+def finderFor (a : Adapter) : Finder :=
+  match finderArgs a with
+  | none => .mock
+  | some (s, b, f, i) => makeKmerFinder a s b f i
 
 /-- the sequence `kmers_present` is called with (`RightmostFrontAdapter` reverses the read) -/
 def finderInput (a : Adapter) (read : Bytes) : Bytes :=
